@@ -225,8 +225,21 @@ func (r *Runner) doStep(act M) error {
 		res := c.DeliverRaw(r.rawTxs[k-1])
 		obs["result"], obs["failIdx"], obs["code"], obs["offs"], obs["panic"] = res.Result, res.FailIdx, res.Code, []any{}, res.Panic
 		extra["real"] = M{"log": res.Log}
+	case "GovSchedule":
+		ok, log := c.GovSchedule(int64(num(act, "amt")))
+		if !ok {
+			return fmt.Errorf("GovSchedule could not be realised (genesis option gov missing?): %s", log)
+		}
+		obs["ok"] = true
 	case "EndBlock":
 		supBefore := c.App.BankKeeper.GetSupply(c.Ctx(), "umed").Amount
+		due := 0
+		for _, p := range c.ProjectGovPending(c.Ctx()) {
+			if pm := p.(M); pm["at"].(int) == int(c.Height) {
+				due += pm["amt"].(int)
+			}
+		}
+		obs["govDue"] = due // observation only: what governance will send to the burn address inside this EndBlock
 		_, err := c.EndBlock()
 		obs["halted"] = err != nil
 		obs["panic"] = err != nil
